@@ -12,3 +12,7 @@ claim("C20",
  "Decides: who may write Signature fields and that the store is dominated by ok(signer) and stores the signer's result (R20.1); no function returning (bytes, error) pairs bytes with a possibly non-nil error (R20.2); encoders refuse empty signatures and Sign helpers return only encoder output (R20.3); signer errors are returned unchanged (R20.4); rand is only forwarded (R20.5). Does not decide what the standard library does on short reads.",
  "Assumes foreign Signer/crypto.Signer implementations return no usable bytes with an error and EncMode.Marshal returns (nil, err). " + TB,
  "who-may-write + dominance facts + exit-pair classification")
+claim("C04",
+ "Decides for all inputs: every key invocation in a method with Headers is dominated by the successful algorithm gate fed with Algorithm() of the very signer/verifier that is then invoked, the Headers whose protected bytes are signed and the signed external data, with no header write in between (R04.1); by path enumeration of both gates, success is only (a) alg equal, (b) not-found with external data, (c) sign-side insertion of alg under label 1 into the current protected map when no raw bytes exist; verify gate is write-free; mismatch wraps ErrAlgorithmMismatch (R04.2); injection precedes the ToBeSigned builder (R04.3); decoded Protected comes only from decoding RawProtected of the same Headers (R04.4); label lookups are spelling-insensitive (R13.6). Does not decide Signer implementations whose Algorithm() varies, nor consistency of caller-supplied RawProtected with the map.",
+ "Assumes the CBOR decoder yields the alg encoded in RawProtected (A1). " + TB,
+ "dominance must-facts + path enumeration of the gate functions + write-effect summaries")
